@@ -102,3 +102,6 @@
   (! (= (bseq.of a o #x0000000000000000) seqempty) :pattern ((bseq.of a o #x0000000000000000)))))
 (assert (forall ((x BSeq)) (! (= (seqcat x seqempty) x) :pattern ((seqcat x seqempty)))))
 (assert (forall ((x BSeq)) (! (= (seqcat seqempty x) x) :pattern ((seqcat seqempty x)))))
+
+;; strings.Join as an uninterpreted function of (backing array, offset, length, separator)
+(declare-fun strjoin ((Array (_ BitVec 64) Str) (_ BitVec 64) (_ BitVec 64) Str) Str)
